@@ -36,7 +36,7 @@ def minCohOK (s : Img) : Bool :=
 def wfOK (s : Img) : Bool :=
   s.h.magic == hdrMagic && s.h.version == curVersion && s.h.dtotal == s.rds.length &&
   decide (128 ≤ s.h.doff) && decide (s.h.doff + 585 * s.rds.length ≤ s.h.dataOff) &&
-  decide ((585 * s.rds.length : Int) ≤ s.h.dsize) &&
+  decide ((585 * s.rds.length : Int) ≤ s.h.dsize) && decide (s.h.doff + s.h.dsize ≤ s.h.dataOff) &&
   decide (128 ≤ s.st.buf.length) && (s.st.buf.take 128 == encHdr s.h) &&
   (s.rds.isEmpty || decide (s.h.doff.toNat + 585 * s.rds.length ≤ s.st.buf.length)) &&
   ((s.st.buf.drop s.h.doff.toNat).take (585 * s.rds.length) == encTable s.rds) &&
